@@ -577,6 +577,8 @@ def reccall_summary(I, fi, args, kwargs, node):
     args, kwargs = list(args), dict(kwargs)
     if fi is not None and kwargs:
         params = [a.arg for a in fi.node.args.posonlyargs + fi.node.args.args]
+        for name in params[:len(args)]:
+            kwargs.pop(name, None)  # (the engine has already put it in its parameter's position)
         for name in params[len(args):]:
             if name in kwargs:
                 args.append(kwargs.pop(name))
